@@ -96,8 +96,17 @@ func c01Profile(tier string) *eng.Profile {
 	buckets := []string{"a", "ab"}
 	keys := []string{"a", "ab", "b"}
 	p := &eng.Profile{ID: "C01", Name: "kv",
-		Cfgs:  cfgs([]int{core.KV, core.K}, []int{core.F, core.M}, []int64{100, 88}),
-		Ops:   func(core.Cfg) []core.Op { return kvOps(buckets, keys, true) },
+		Cfgs: append(cfgs([]int{core.KV, core.K}, []int{core.F, core.M}, []int64{100, 88}),
+			// larger records: 300-byte values, two per segment
+			core.Cfg{Mode: core.KV, Seg: 700}, core.Cfg{Mode: core.K, RW: core.M, Start: core.M, Seg: 700}),
+		Ops: func(cfg core.Cfg) []core.Op {
+			if cfg.Seg >= 700 {
+				o := kvOps([]string{"a"}, []string{"a", "ab"}, true)
+				return append(o, up(core.Call{F: "Put", B: "a", K: "a", Big: 300}), up(core.Call{F: "Put", B: "a", K: "ab", Big: 299}),
+					up(core.Call{F: "Put", B: "a", K: "b", Big: 300}, core.Call{F: "Put", B: "a", K: "a", V: "s"}))
+			}
+			return kvOps(buckets, keys, true)
+		},
 		Obs: func(core.Cfg) []core.Call {
 			return kvObs([]string{"a", "ab", "zz"}, []string{"a", "ab", "b", "zz"},
 				[]string{"", "a", "aa", "ab", "ac", "b", "c"}, []string{"", "a", "ab", "b", "c"}, true)
@@ -112,7 +121,7 @@ func c01Profile(tier string) *eng.Profile {
 		if tier == "thorough" {
 			d = 4
 		}
-		if c.Mode == core.K && c.RW == core.M {
+		if c.Mode == core.K && c.RW == core.M && c.Seg < 700 {
 			d--
 		}
 		return d
